@@ -35,6 +35,11 @@ CLAIMED = {
 }
 
 CLAIMED.update({
+    "C01": {
+        "text": "THIN SLICE. The allocation-watermark arithmetic that makes an acknowledged-but-unflushed add recoverable, as statement slices copied verbatim each run from add_impl, the async ensure_allocation_watermark (guards, target, publish), open's watermark initialiser and auto_repair_indexes' window, into a view struct over the two atomics they read — complete over all u64 (below the overflow corner): the published watermark never moves back and covers every acknowledged id, the value handed to the PUT covers the id, a failed PUT publishes nothing, the repair window is exactly (checkpoint, max(max id, watermark)], and end to end: from any state satisfying the invariant max(persisted, metadata max) == published, allocate -> publish -> crash before any flush -> reopen: the repair scan's window contains the id; an allocated id is above the metadata maximum (an id a flush acknowledged is never handed out again). Everything else C01 states (flush write order, intent replay, index manifests, poisoning, power loss at every backend step) is not decidable by contracts here.",
+        "note": "Scope: watermark / repair-window arithmetic only.",
+        "technique": TECH_K,
+    },
     "C08": {
         "text": "THIN SLICE. The sweep decisions of SidecarStore::collect_garbage — two statement slices copied verbatim each run from inside its async listing loops: a generation object is a deletion candidate only if it is older than the run's floor (not an in-flight write), the key's commit point in the mark snapshot does not reference exactly that generation, and the commit point was decodable; a legacy object only if the commit point is neither in the legacy layout nor undecodable. Complete over all u64 timestamps on every snapshot state. 'Garbage collection never removes a payload that a committed key refers to' is decided only with respect to the snapshot the decision is handed; crash atomicity of the wrapper writes, the mark phase, the in-flight / re-read guards and GC-vs-writer schedules are not decidable by contracts here.",
         "note": "Scope: the two sweep decisions of collect_garbage only.",
@@ -73,7 +78,6 @@ CLAIMED.update({
 })
 
 NOT_APPLICABLE = {
-    "C01": "crash-point/fault-sequence invariant over an async multi-object write protocol; no function-local contract expresses it and neither verifier can execute the storage stack (DESIGN §3 C01)",
     "C02": "relation between three concurrent index structures and the object store maintained by async methods; nothing synchronous carries it (DESIGN §3 C02)",
     "C04": "uniqueness lives in BTreeIndex::insert under DashMap locks (Kani 0.68 ICE intrinsics.rs:243, Verus cannot parse) plus async rollback and schedules (DESIGN §3 C04)",
     "C05": "a property of schedules; Kani has no threads, Verus would need a rewrite with permission types, i.e. a model (DESIGN §3 C05)",
